@@ -231,6 +231,45 @@ const SIZED: &[(&str, &str)] = &[
     ("array-with-toSpliced", "typeof [].toSpliced === 'function' ? [1, 2, 3].toSpliced(0, $N).length : 0"),
 ];
 
+/// built-ins taking two (or three) numeric arguments: every ordered pair of a 12-value palette
+const PAIR_SIZES: &[&str] = &["0", "1", "2", "-1", "-2", "1.5", "2147483647", "2147483648", "4294967294", "4294967295", "4294967296", "9007199254740991", "Infinity", "-Infinity", "NaN"];
+
+const SIZED2: &[(&str, &str)] = &[
+    ("splice", "[1, 2, 3, 4].splice($A, $B)"),
+    ("splice-insert", "[1, 2, 3, 4].splice($A, $B, 'x', 'y')"),
+    ("toSpliced", "typeof [].toSpliced === 'function' ? [1, 2, 3, 4].toSpliced($A, $B, 'x') : 0"),
+    ("slice", "[1, 2, 3, 4].slice($A, $B)"),
+    ("fill", "[1, 2, 3, 4].fill(0, $A, $B)"),
+    ("copyWithin", "[1, 2, 3, 4].copyWithin($A, $B)"),
+    ("copyWithin-3", "[1, 2, 3, 4].copyWithin(1, $A, $B)"),
+    ("indexOf-from", "[1, 2, 3, 4].indexOf($A, $B)"),
+    ("lastIndexOf-from", "[1, 2, 3, 4].lastIndexOf($A, $B)"),
+    ("includes-from", "[1, 2, 3, 4].includes($A, $B)"),
+    ("with", "typeof [].with === 'function' ? [1, 2, 3, 4].with($A, $B) : 0"),
+    ("flat-after-length", "(function(){ var a = [1, [2]]; a.length = Math.min(Math.max($A, 0) || 0, 100); return a.flat($B); })()"),
+    ("str-substring", "'abcdef'.substring($A, $B)"),
+    ("str-substr", "'abcdef'.substr($A, $B)"),
+    ("str-slice", "'abcdef'.slice($A, $B)"),
+    ("str-padStart-fill", "'ab'.padStart(Math.min($A, 100) || 0, String($B))"),
+    ("str-indexOf", "'abcabc'.indexOf('c', $A) + 'abcabc'.lastIndexOf('c', $B)"),
+    ("str-split-limit", "'a,b,c,d'.split(',', $A).length + $B"),
+    ("str-at-codePoint", "String('abc'.at($A)) + 'abc'.codePointAt($B)"),
+    ("str-startsWith-endsWith", "'abcdef'.startsWith('c', $A) + '' + 'abcdef'.endsWith('c', $B)"),
+    ("str-repeat-small-times", "'ab'.repeat(Math.min(Math.max($A, 0) || 0, 50)).slice($B)"),
+    ("num-toFixed-toPrecision", "(123.456).toFixed(Math.min(Math.max($A, 0) || 0, 20)) + (123.456).toString(Math.min(Math.max($B, 2) || 2, 36))"),
+    ("array-from-length-slice", "Array.from({ length: Math.min(Math.max($A, 0) || 0, 50) }).slice($B).length"),
+    ("array-length-then-splice", "(function(){ var a = [1, 2, 3]; a.length = Math.min(Math.max($A, 0) || 0, 50); return a.splice(1, $B).length; })()"),
+    ("typed-subarray-like", "[1, 2, 3, 4].slice($A).concat([1, 2, 3, 4].slice(0, $B)).length"),
+    ("date-utc", "new Date(Date.UTC(2000, $A, $B)).getTime()"),
+    ("date-utc-year", "Date.UTC($A, $B, 1) + Date.UTC($A, 0, $B)"),
+    ("date-ctor-components", "new Date($A, $B).getTime() + new Date(2000, $A, $B, $A, $B).getTime()"),
+    ("date-setters", "(function(){ var d = new Date(0); d.setUTCFullYear($A); d.setUTCMonth($B); d.setUTCDate($A); d.setUTCHours($B); d.setUTCMinutes($A); d.setUTCSeconds($B); d.setUTCMilliseconds($A); d.setTime($B); return d.getTime(); })()"),
+    ("date-getters-after-set", "(function(){ var d = new Date($A); return [d.getUTCFullYear(), d.getUTCMonth(), d.getUTCDay(), d.toISOString === undefined ? 0 : 1, String(d).length, d.getTimezoneOffset()].join() + new Date($B).toJSON; })()"),
+    ("math-pow-shift", "Math.pow($A, $B) + ($A << $B) + ($A >>> $B) + ($A % $B)"),
+    ("string-fromCharCode-2", "String.fromCharCode($A, $B).length"),
+    ("array-reduce-init", "[1, 2, 3].reduce(function(a, b){ return a + b; }, $A) + $B"),
+];
+
 // ───────────────────────────── deep data through recursive built-ins ─────────────────────────────
 
 /// (name, setup building `d` nested DEPTH deep, expression)
@@ -609,6 +648,43 @@ fn judge_sized(r: &mut UnitResult, i: usize) {
     }
 }
 
+fn judge_sized2(r: &mut UnitResult, i: usize) {
+    let (name, expr) = SIZED2[i];
+    // all pairs run in ONE child per first argument (the outcome wanted is only "survives");
+    // a death is attributed by re-running that row pair by pair
+    for a in PAIR_SIZES {
+        let row: Vec<String> = PAIR_SIZES
+            .iter()
+            .map(|b| {
+                let e = expr.replace("$A", a).replace("$B", b);
+                format!("try {{ var v = {}; }} catch (e) {{ }}", e)
+            })
+            .collect();
+        r.evaluations += 1;
+        let iso = isolated(row.join("\n") + "\n'ok'", 50_000_000, HOST_DEPTH_BUDGET, 60);
+        if iso.timeout {
+            r.inconclusive += 1;
+            continue;
+        }
+        r.nontrivial += 1;
+        r.stat("size_argument_pairs", PAIR_SIZES.len() as i64);
+        if iso.death.is_none() {
+            continue;
+        }
+        for b in PAIR_SIZES {
+            let e = expr.replace("$A", a).replace("$B", b);
+            let one = isolated(format!("try {{ var v = {}; }} catch (e) {{ }} 'ok'", e), 50_000_000, HOST_DEPTH_BUDGET, 30);
+            if let Some(d) = &one.death {
+                r.violate(
+                    format!("{}|sized2.{}|{}|{}", death_class(d), name, a, b),
+                    format!("size arguments ({}, {}) into {} ({}): the process did not survive ({}) instead of a catchable error", a, b, name, e, d),
+                    json!({"kind": "sized2", "name": name, "a": a, "b": b}),
+                );
+            }
+        }
+    }
+}
+
 fn judge_deep_data(r: &mut UnitResult, ctx: &Ctx, i: usize) {
     let (name, setup, expr) = DEEP_DATA[i];
     for depth in deep_depths(ctx) {
@@ -649,7 +725,7 @@ const VARIANTS: &[&str] = &["control", "loop", "rec", "deep"];
 
 impl Check for C06 {
     fn units(&self, _ctx: &Ctx) -> usize {
-        PATHS.len() + ENDLESS.len() + SIZED.len() + DEEP_DATA.len()
+        PATHS.len() + ENDLESS.len() + SIZED.len() + DEEP_DATA.len() + SIZED2.len()
     }
 
     fn run_unit(&self, ctx: &Ctx, idx: usize) -> UnitResult {
@@ -671,8 +747,14 @@ impl Check for C06 {
             if (idx - np - ne) % 25 == 0 {
                 r.sample(json!({"size_taking_builtin": SIZED[idx - np - ne].0, "sizes": SIZES}));
             }
-        } else {
+        } else if idx < np + ne + ns + DEEP_DATA.len() {
             judge_deep_data(&mut r, ctx, idx - np - ne - ns);
+        } else {
+            let i = idx - np - ne - ns - DEEP_DATA.len();
+            judge_sized2(&mut r, i);
+            if i == 0 {
+                r.sample(json!({"two_argument_builtin": SIZED2[i].0, "pairs": PAIR_SIZES.len() * PAIR_SIZES.len()}));
+            }
         }
         r
     }
@@ -696,6 +778,13 @@ impl Check for C06 {
                     judge_sized(&mut r, i);
                     let sz = case["size"].as_str().unwrap_or("").to_string();
                     r.violations.retain(|v| v.case["size"].as_str() == Some(sz.as_str()));
+                }
+            }
+            "sized2" => {
+                if let Some(i) = SIZED2.iter().position(|x| Some(x.0) == case["name"].as_str()) {
+                    judge_sized2(&mut r, i);
+                    let (a, b) = (case["a"].as_str().unwrap_or("").to_string(), case["b"].as_str().unwrap_or("").to_string());
+                    r.violations.retain(|v| v.case["a"].as_str() == Some(a.as_str()) && v.case["b"].as_str() == Some(b.as_str()));
                 }
             }
             "deep-data" => {
